@@ -35,6 +35,7 @@ type histCfg struct {
 	mid                  []string // ops allowed at the first wager request: arrive addon-part rebuy-part leave-sitout leave-part none
 	finish               []string // settlement-finished policies available: all none first
 	newStack             int64
+	advance              int64    // seconds the clock moves before every wager action
 	race                 *raceCfg // one operation issued concurrently with the response that ends hand 1 (racing settlement / continue)
 	panicsAreDiagnostics bool // a panic in a system goroutine is recorded as a diagnostic, not attributed to this property
 }
@@ -58,6 +59,7 @@ type hist struct {
 	lateLeave       map[int]bool                // hand after which a player left during the open-game wait
 	openedUpdate    map[int]*pt.TableBlindState // hand -> blind level set from inside its opened callback
 	openedDone      map[int]bool
+	raceViol        *Viol // judged by race() itself right after the window (see monRaceViol)
 	breakDuringWait bool // a break was applied after the next hand had been set up (open-game wait)
 }
 
@@ -94,6 +96,13 @@ func (h *hist) race(rc *raceCfg, pol *HandPolicy) string {
 			bank = pl.Bankroll
 		}
 	}
+	var extOld, extRet int64
+	var extErr error
+	if kind == "extend" {
+		// the asked player has been thinking for three seconds: the next request's deadline differs from this one's
+		env.AdvanceTo(env.Now() + 3e9)
+		extOld = td.table().State.CurrentActionEndAt
+	}
 	env.WindowBegin()
 	tA := env.Go("answer:"+a, true, func() { td.act(who, a, amt) })
 	tB := env.Go("op:"+rc.op, true, func() {
@@ -113,6 +122,9 @@ func (h *hist) race(rc *raceCfg, pol *HandPolicy) string {
 					td.join(newID)
 				}
 			}
+		case "extend":
+			extRet, extErr = td.te.PlayerExtendActionDeadline(who, 15)
+			td.logf("extend(%s,15)->%d,%v", who, extRet, extErr)
 		case "leave":
 			if td.leave(arg) == nil {
 				h.out += bank
@@ -127,6 +139,24 @@ func (h *hist) race(rc *raceCfg, pol *HandPolicy) string {
 	env.Join(tA, tB)
 	env.WindowEnd()
 	env.Settle()
+	if kind == "extend" {
+		// C15: the answer moved the turn to the next player (same betting round). Whatever the order of the two
+		// calls, that player's published deadline is request time + action time, plus the 15 s if - and only if -
+		// the extension was applied after the turn had moved (its return value tells which).
+		t := td.table()
+		if np := td.pending(); np.Kind == "wager" && len(np.Players) > 0 && np.Players[0] != who && t.State.GameState != nil && t.State.GameState.Status.CurrentEvent == "RoundStarted" {
+			fresh := env.Now()/1e9 + int64(t.Meta.ActionTime)
+			final := t.State.CurrentActionEndAt
+			want := fresh
+			if extRet == fresh+15 {
+				want = fresh + 15
+			}
+			diagNotes[fmt.Sprintf("race-extend: extension returned old%+d, next deadline published fresh%+d", extRet-extOld, final-fresh)]++
+			if extErr == nil && final != want {
+				h.raceViol = &Viol{Key: "deadline-wrong@extension-racing-turn-change", Detail: fmt.Sprintf("%s was asked at t=%d (deadline %d), thought for 3 s, then answered (%s) while a 15 s extension was requested at the same time; the extension returned %d; %s is now asked at t=%d with action time %d: published deadline %d, expected %d", who, env.Now()/1e9-3, extOld, a, extRet, np.Players[0], env.Now()/1e9, t.Meta.ActionTime, final, want)}
+			}
+		}
+	}
 	return fmt.Sprintf("race[%s(%s) || %s]", a, who, rc.op)
 }
 
@@ -381,7 +411,7 @@ func runHist0(prefix []int, hc *histCfg, vcfg vrt.Config, mk func(h *hist) []Mon
 				}
 			}
 		}
-		cfg := &handCfg{name: hc.name, tcfg: hc.tcfg, hands: hc.hands}
+		cfg := &handCfg{name: hc.name, tcfg: hc.tcfg, hands: hc.hands, advance: hc.advance}
 		pickHand := func(n int) {
 			ln := hc.lines[env.ChooseDev(len(hc.lines), "line")]
 			dk := "asc"
